@@ -395,6 +395,8 @@ class Crazyflie():
                 else:
                     logger.debug('Resend requested, but no pattern found: %s',
                                  self._answer_patterns)
+                    # Answered (or the link was closed) while the timer was firing
+                    return
             self._sending_thread = current_thread()
             link.send_packet(pk)
             self._sending_thread = None
